@@ -258,6 +258,10 @@ func modApply(kind, old string) (string, bool, bool) { // new text, store?, know
 			return "", false, true
 		}
 		return strings.ReplaceAll(old, "a", "bb"), true, true
+	case "subempty":
+		return old, true, true // a substitution was made (n = 1): the target is assigned
+	case "subsame", "gsubsame":
+		return old, strings.Contains(old, "b"), true
 	case "app":
 		return old + "x", true, true
 	case "id", "idsv":
